@@ -302,9 +302,21 @@ class _Group:
         return harness_for([x[2] for x in self.get()])
 
 
-def targets():
+QUICK_GROUPS = ('src/loss', 'src/lsearch0', 'src/splitter')
+
+
+def tier_groups(tier):
+    """thorough tier: every directory and the headers.  Quick tier: three small directories (one contract for every clone(): the
+    others differ in the class only)"""
+    g = groups()
+    if tier == 'thorough':
+        return g
+    return {k: v for k, v in g.items() if k in QUICK_GROUPS} or dict(sorted(g.items())[:3])
+
+
+def targets(tier='thorough'):
     out = []
-    for name, files in sorted(groups().items()):
+    for name, files in sorted(tier_groups(tier).items()):
         g = _Group(name, files)
         out.append(Target('clones_' + re.sub(r'\W+', '_', name), g.fns, HK, enforce_none=True, harness=g.harness, loops=0,
                           note=f'every clone() definition of {name}/ (found by clang)'))
@@ -318,7 +330,8 @@ class RegisteredVC(VC):
     the add<T> instantiations clang reports for one factory file; the classes with their own clone() are the ones under contract above.
     A syntactic comparison, reported through the VC channel (thorough tier)."""
 
-    def __init__(self, tu):
+    def __init__(self, tu, tier='thorough'):
+        self.tier = tier
         super().__init__('registered_clone/' + re.sub(r'\W+', '_', tu), '(assert true)', about=f'every class that {tu} registers defines clone() itself',
                          source={'file': tu}, group='registered_clone')
         self.tu = tu
@@ -327,7 +340,7 @@ class RegisteredVC(VC):
         try:
             regs = sorted({_norm(astload.template_args(d)[0]) for d in astload.instantiations(self.tu, 'factory_t', 'add') if d.get('mangledName')})
             own = set()
-            for name, files in sorted(groups().items()):
+            for name, files in sorted(tier_groups(self.tier).items()):
                 g = _Group(name, files)
                 own |= {x[2] for x in g.get()} | {x[4] for x in g.get()}
             missing = [t for t in regs if t not in own]
@@ -343,4 +356,5 @@ class RegisteredVC(VC):
 
 def vcs(tier):
     import factory
-    return [RegisteredVC(tu) for tu in (factory.FACTORY_TUS if tier == 'thorough' else factory.FACTORY_TUS[:1])]
+    # quick tier: the classes src/lsearch0.cpp registers against the clone() definitions of the quick directories (src/lsearch0 is one)
+    return [RegisteredVC(tu, tier) for tu in (factory.FACTORY_TUS if tier == 'thorough' else factory.FACTORY_TUS[:1])]
